@@ -160,10 +160,7 @@ func (w *World) callEffects(call *ssa.CallCommon, cells map[*ssa.Alloc]bool, x *
 	case *ssa.Builtin:
 		switch f.Name() {
 		case "append":
-			eff.allocs = true
-			if sl, ok := call.Args[0].Type().Underlying().(*types.Slice); ok {
-				eff.prefixes["E:"+typeKey(sl.Elem())] = true
-			}
+			eff.allocs = true // functional model: the result lives in a fresh backing array
 		case "copy":
 			if sl, ok := call.Args[0].Type().Underlying().(*types.Slice); ok {
 				eff.prefixes["E:"+typeKey(sl.Elem())] = true
@@ -179,10 +176,11 @@ func (w *World) callEffects(call *ssa.CallCommon, cells map[*ssa.Alloc]bool, x *
 		// locals whose address is passed may be written
 		if cells != nil {
 			for _, a := range call.Args {
+				if _, isPtr := a.Type().Underlying().(*types.Pointer); !isPtr {
+					continue
+				}
 				if _, loc, ok := addrPrefix(a); ok && loc != nil {
-					if _, isPtr := a.Type().Underlying().(*types.Pointer); isPtr {
-						cells[loc] = true
-					}
+					cells[loc] = true
 				}
 			}
 		}
@@ -192,6 +190,16 @@ func (w *World) callEffects(call *ssa.CallCommon, cells map[*ssa.Alloc]bool, x *
 		eff.add(w.funcEffects(fn))
 		w.closureCellWrites(fn, f, cells)
 		return eff
+	}
+	// call through a function-typed parameter that the enclosing function declares as callback:
+	// its effects are supplied by the caller at each call site
+	if p := calleeParam(call); p != nil {
+		if fc := w.contracts[funcKey(p.Parent())]; fc != nil {
+			if _, ok := fc.Callbacks[p.Name()]; ok {
+				eff.allocs = true
+				return eff
+			}
+		}
 	}
 	// dynamic call through a function value
 	if x != nil {
@@ -363,7 +371,45 @@ func (w *World) pureExternal(fn *ssa.Function) bool {
 }
 
 func (w *World) inRepo(fn *ssa.Function) bool {
-	return fn.Pkg != nil && strings.HasPrefix(fn.Pkg.Pkg.Path(), "github.com/benhoyt/goawk")
+	if fn.Pkg == nil {
+		// synthetic wrappers (bound methods, thunks) have bodies that call the real method
+		return fn.Synthetic != "" && len(fn.Blocks) > 0
+	}
+	return strings.HasPrefix(fn.Pkg.Pkg.Path(), "github.com/benhoyt/goawk")
+}
+
+// paramOfCell: the parameter whose (naive-form) spill cell this Alloc is.
+func paramOfCell(al *ssa.Alloc) *ssa.Parameter {
+	var p *ssa.Parameter
+	n := 0
+	if al.Referrers() == nil {
+		return nil
+	}
+	for _, ref := range *al.Referrers() {
+		if s, ok := ref.(*ssa.Store); ok && s.Addr == ssa.Value(al) {
+			n++
+			if pp, ok := s.Val.(*ssa.Parameter); ok {
+				p = pp
+			}
+		}
+	}
+	if n == 1 {
+		return p
+	}
+	return nil
+}
+
+// calleeParam: is this call made through a function-typed parameter (directly or via its spill cell)?
+func calleeParam(call *ssa.CallCommon) *ssa.Parameter {
+	switch v := call.Value.(type) {
+	case *ssa.Parameter:
+		return v
+	case *ssa.UnOp:
+		if al, ok := v.X.(*ssa.Alloc); ok && v.Op == token.MUL {
+			return paramOfCell(al)
+		}
+	}
+	return nil
 }
 
 func funcKey(fn *ssa.Function) string {
@@ -495,14 +541,34 @@ func (x *Exec) freshResult(st *State, name string, t types.Type) Value {
 	return v
 }
 
+// callCallback: a call through a declared callback parameter. A pure callback returns a function of
+// the callback-state version; a havoc callback advances the version (its memory effects are on the
+// caller's side and invisible here: the function under contract owns none of that memory).
 func (x *Exec) callCallback(st *State, cb *Callback, f FuncV, resType types.Type, pos token.Pos) Value {
-	if !cb.Pure {
-		x.havocForUnknown(st)
+	c := x.c
+	ver, ok := st.ghost["cbver"]
+	if !ok {
+		ver = c.Const("cbver0", SInt)
+		st.ghost["cbver"] = ver
 	}
-	res := x.freshResult(st, "cb_"+f.Param.Name(), resType)
-	// callbacks preserve the stated predicate: assumed at each call (the caller of the function under
-	// contract proves it for the closures it passes)
-	return res
+	if !cb.Pure {
+		st.ghost["cbver"] = c.Fresh("cbver", SInt)
+		return x.freshResult(st, "cb_"+f.Param.Name(), resType)
+	}
+	if resType == nil {
+		return TupleV{}
+	}
+	if tu, ok := resType.(*types.Tuple); ok && tu.Len() == 0 {
+		return TupleV{}
+	}
+	ls := leavesOf(resType)
+	ts := make([]*Term, len(ls))
+	for i, l := range ls {
+		ts[i] = c.App("cb_"+f.Param.Name()+l.suffix, l.sort, ver)
+	}
+	v := x.unflatten(resType, &ts)
+	x.assumeRanges(st, v, resType)
+	return v
 }
 
 func (x *Exec) invoke(st *State, call *ssa.CallCommon, resType types.Type, pos token.Pos) Value {
@@ -545,6 +611,13 @@ func (x *Exec) callFunc(st *State, fn *ssa.Function, binds []Value, call *ssa.Ca
 	if v, ok := x.intrinsic(st, fn, args, resType, pos); ok {
 		return v
 	}
+	var preserves []Clause
+	if x.fc != nil {
+		preserves = x.fc.CallPreserves[lastName(key)]
+	}
+	if len(preserves) > 0 {
+		x.checkClosuresPreserve(st, fn, call, args, preserves, pos)
+	}
 	sig := fn.Signature
 	var names []string
 	var tys []types.Type
@@ -585,7 +658,164 @@ func (x *Exec) callFunc(st *State, fn *ssa.Function, binds []Value, call *ssa.Ca
 	} else if fc.Trusted {
 		x.ledger["trusted contract of "+key] = true
 	}
-	return x.applyContract(st, fc, names, tys, args, sig.Results(), resType, pos, key, fn)
+	var atCall *State
+	if len(preserves) > 0 {
+		atCall = st.clone()
+	}
+	res := x.applyContract(st, fc, names, tys, args, sig.Results(), resType, pos, key, fn)
+	if len(preserves) > 0 {
+		// effects of the function values passed, then the preserved predicate
+		x.havocClosureArgs(st, call, args)
+		env := x.envFor(x.fn, st, x.entry, nil)
+		env.locals = true
+		env.pos = pos
+		env.pre = atCall
+		for _, cl := range preserves {
+			x.assume(st, x.evalBool(cl.Expr, env))
+		}
+	}
+	return res
+}
+
+func (x *Exec) closureArgs(args []Value) []FuncV {
+	var out []FuncV
+	for _, a := range args {
+		if f, ok := a.(FuncV); ok && f.Fn != nil {
+			out = append(out, f)
+		}
+	}
+	return out
+}
+
+func (x *Exec) havocClosureArgs(st *State, call *ssa.CallCommon, args []Value) {
+	for k, a := range args {
+		f, ok := a.(FuncV)
+		if !ok || f.Fn == nil {
+			continue
+		}
+		eff := x.w.funcEffects(f.Fn)
+		if eff.all {
+			x.havocForUnknown(st)
+		} else if locs, ok := x.closureWriteSet(st, f, eff); ok {
+			for _, l := range locs {
+				x.havocLoc(st, l)
+			}
+			nt := x.c.Fresh("allocTop", SInt)
+			x.hyps = append(x.hyps, x.c.Le(st.allocTop, nt))
+			st.allocTop = nt
+		} else {
+			x.applyEffects(st, eff)
+		}
+		if mc, ok := call.Args[k].(*ssa.MakeClosure); ok {
+			cells := map[*ssa.Alloc]bool{}
+			x.w.closureCellWrites(f.Fn, mc, cells)
+			for cell := range cells {
+				if _, ok := st.cells[cell]; ok {
+					t := deref(cell.Type())
+					st.cells[cell] = x.freshValue("cl_"+cell.Comment, t)
+					x.assumeRanges(st, st.cells[cell], t)
+				}
+			}
+		}
+	}
+}
+
+// closureWriteSet discovers the heap locations a function value writes by executing its body once,
+// muted, from a state in which its (type-level) write set is havoced. The result is usable when no
+// location depends on the havoced memory (then any number of calls writes the same locations).
+func (x *Exec) closureWriteSet(st *State, f FuncV, eff *Effects) ([]loc, bool) {
+	if x.recording != nil || x.depth > 3 {
+		return nil, false
+	}
+	scratch := st.clone()
+	mark := x.c.fresh
+	x.applyEffects(scratch, eff)
+	var locs []loc
+	x.recording = &locs
+	savedMute, savedHyps, savedCount := x.mute, len(x.hyps), x.c.fresh
+	_ = savedCount
+	x.mute = true
+	ok := true
+	func() {
+		defer func() {
+			if r := recover(); r != nil {
+				if _, isU := r.(unsupportedErr); isU {
+					ok = false
+					return
+				}
+				panic(r)
+			}
+		}()
+		var cargs []Value
+		for _, p := range f.Fn.Params {
+			cargs = append(cargs, x.freshValue("wsarg_"+p.Name(), p.Type()))
+		}
+		x.depth++
+		x.runBody(f.Fn, scratch, cargs, f.Binds, x.w.contracts[funcKey(f.Fn)])
+		x.depth--
+	}()
+	x.recording = nil
+	x.mute = savedMute
+	x.hyps = x.hyps[:savedHyps]
+	if !ok {
+		return nil, false
+	}
+	var out []loc
+	seen := map[string]bool{}
+	for _, l := range locs {
+		if l.base != nil && x.c.dependsOnFreshSince(l.base, mark) {
+			return nil, false
+		}
+		if l.kind == "cell" || l.kind == "prefix" {
+			return nil, false
+		}
+		key := fmt.Sprintf("%s|%s|%d", l.kind, l.prefix, l.base.id)
+		if !seen[key] {
+			seen[key] = true
+			out = append(out, l)
+		}
+	}
+	return out, true
+}
+
+// checkClosuresPreserve: {P} f() {P} for every function value passed at this call site, from an
+// arbitrary state satisfying P (P may mention old(): the function's entry state).
+func (x *Exec) checkClosuresPreserve(st *State, callee *ssa.Function, call *ssa.CallCommon, args []Value, preserves []Clause, pos token.Pos) {
+	for k, a := range args {
+		f, ok := a.(FuncV)
+		if !ok || f.Fn == nil {
+			continue
+		}
+		s := st.clone()
+		atCall := st.clone()
+		x.havocClosureArgs(s, call, args)
+		env := x.envFor(x.fn, s, x.entry, nil)
+		env.locals = true
+		env.pos = pos
+		env.pre = atCall
+		for _, cl := range preserves {
+			x.assume(s, x.evalBool(cl.Expr, env))
+		}
+		// run the closure with unconstrained arguments
+		var cargs []Value
+		for _, p := range f.Fn.Params {
+			v := x.freshValue("cbarg_"+p.Name(), p.Type())
+			x.assumeRanges(s, v, p.Type())
+			cargs = append(cargs, v)
+		}
+		x.depth++
+		rets := x.runBody(f.Fn, s, cargs, f.Binds, x.w.contracts[funcKey(f.Fn)])
+		x.depth--
+		for _, r := range rets {
+			envR := x.envFor(x.fn, r.st, x.entry, nil)
+			envR.locals = true
+			envR.pos = pos
+			envR.pre = atCall
+			for _, cl := range preserves {
+				x.oblige(r.st, "callback-preserves", fmt.Sprintf("function value passed as argument %d of %s preserves: %s", k, lastName(funcKey(callee)), cl.Text), pos, x.evalBool(cl.Expr, envR), cl.Props, cl.Text)
+			}
+		}
+	}
 }
 
 // applyContract: assert requires, havoc the frame, assume ensures.
@@ -599,7 +829,17 @@ func (x *Exec) applyContract(st *State, fc *FuncContract, names []string, tys []
 			binds[n] = TV{args[k], tys[k]}
 		}
 	}
-	envPre := &Env{x: x, st: pre, old: pre, names: binds, callee: true}
+	var cpkg *types.Package
+	if fn != nil && fn.Pkg != nil {
+		cpkg = fn.Pkg.Pkg
+	} else if fc.Pkg != "" {
+		for _, p := range x.w.pkgs {
+			if p.Types != nil && p.Types.Name() == fc.Pkg {
+				cpkg = p.Types
+			}
+		}
+	}
+	envPre := &Env{x: x, st: pre, old: pre, names: binds, callee: true, pkg: cpkg}
 	for _, cl := range fc.Requires {
 		t := x.evalBool(cl.Expr, envPre)
 		x.oblige(st, "requires@call", fmt.Sprintf("precondition of %s: %s", key, cl.Text), pos, t, cl.Props, cl.Text)
@@ -657,7 +897,7 @@ func (x *Exec) applyContract(st *State, fc *FuncContract, names []string, tys []
 	} else {
 		res = x.freshResult(st, "ret_"+lastName(key), rt)
 	}
-	envPost := &Env{x: x, st: st, old: pre, names: binds, callee: true}
+	envPost := &Env{x: x, st: st, old: pre, names: binds, callee: true, pkg: cpkg}
 	x.bindResults(envPost, fc, results, res)
 	for _, cl := range fc.Ensures {
 		t := x.evalBool(cl.Expr, envPost)
@@ -816,6 +1056,9 @@ type loc struct {
 
 func (x *Exec) havocLoc(st *State, l loc) {
 	c := x.c
+	if x.recording != nil {
+		*x.recording = append(*x.recording, l)
+	}
 	switch l.kind {
 	case "field", "box":
 		// every leaf key under the prefix: H' = store(H, base, fresh)
